@@ -130,6 +130,7 @@ func TestVerifHealth(t *testing.T) {
 					return
 				}
 				var res result
+				loadedTries := 0
 				for try := 0; try < 3; try++ {
 					var clean bool
 					res, clean = healthHistory(seeds[i], peers)
@@ -137,6 +138,17 @@ func TestVerifHealth(t *testing.T) {
 						break
 					}
 					res.st["retimed"]++
+					// is it the machine? a probe the code under test cannot influence: how late does a 20 ms sleep wake up
+					t0 := time.Now()
+					time.Sleep(20 * time.Millisecond)
+					if late := time.Since(t0) - 20*time.Millisecond; late > 12*time.Millisecond {
+						loadedTries++
+					}
+				}
+				if loadedTries == 3 {
+					// three noisy runs, each on a measurably overloaded machine: the millisecond-level judgements of this history are not
+					// made (the case is passed on as a note; the model is not consulted)
+					res = result{caseLine: "note health history skipped: machine overloaded (sleep probe late by more than 12 ms three times)", obs: "skipped", st: map[string]int{"skipped-overloaded": 1}}
 				}
 				results[i] = res
 			}
